@@ -341,9 +341,10 @@ Proof.
   set (s1 := match c with CTermGW _ | CIngressGW _ => _ | _ => s end) in He.
   assert (H1 : INV s1).
   { subst s1. destruct c; try exact Hinv; (eapply INV_core; [apply update_gateway_services_core|exact Hinv]). }
-  set (s2 := match c with CDefaults true => _ | _ => s1 end) in He.
+  set (s2 := match c with CDefaults true => _ | CDefaults false => _ | _ => s1 end) in He.
   assert (H2 : INV s2).
   { subst s2. destruct c as [| |[]|]; try exact H1.
+    2:{ destruct (bool_decide _); [|exact H1]. cbv zeta. eapply INV_core; [apply drop_destination_core|exact H1]. }
     eapply INV_core; [apply upsert_ksn_core|]. eapply INV_core; [apply check_gateway_and_update_core|].
     eapply INV_core; [apply check_gateway_wildcards_and_update_core|exact H1]. }
   apply res_bind_ok in He as (s3 & E3 & He). injection He as <-.
